@@ -34,23 +34,22 @@ Masks(Fs, lo, hi) == {F \in SUBSET Fs : Cardinality(F) <= lo \/ Cardinality(F) >
 MaskPolicy(Fs) ==
   LET n == Cardinality(Fs) IN
   IF ~Deep THEN Masks(Fs, 1, n - 1)
-  ELSE IF n <= 12 THEN SUBSET Fs
-  ELSE Masks(Fs, 3, n - 2)
+  ELSE SUBSET Fs      \* thorough: every presence mask (2^18 for CONNACK)
 
 \* ---------------------------------------------------------------- MQTT 5 universe
 AckKinds == {"PUBACK", "PUBREC", "PUBREL", "PUBCOMP"}
 AckRc(t) == IF t \in {"PUBACK", "PUBREC"} THEN W5!RcPubAck ELSE W5!RcPubRel
-Acks == {[t |-> t, id |-> id, rc |-> rc, rs |-> rs, up |-> up] :
+Acks(zz) == {[t |-> t, id |-> id, rc |-> rc, rs |-> rs, up |-> up] :
            t \in AckKinds, id \in (IF Deep THEN {1, 256, 65535} ELSE {1, 65535}), rc \in W5!RcPubAck \cup W5!RcPubRel,
            rs \in {<< >>, <<S0>>, <<Sab>>}, up \in {<< >>, UP1, UP2}}
-AckU == {p \in Acks : p.rc \in AckRc(p.t)}
+AckU(zz) == {p \in Acks(0) : p.rc \in AckRc(p.t)}
 
 PubBase(q) == [t |-> "PUBLISH", dup |-> 0, retain |-> 0, q |-> q, topic |-> Sab, id |-> IF q = 0 THEN 0 ELSE 1,
                utf8 |-> 0, mei |-> 0, ct |-> << >>, rt |-> << >>, cd |-> << >>, sids |-> << >>, alias |-> 0,
                up |-> << >>, psize |-> 3]
 PubAlt == [dup |-> 1, retain |-> 1, utf8 |-> 1, mei |-> 7, ct |-> <<Sa>>, rt |-> <<Sab>>, cd |-> << <<0, 255>> >>,
            sids |-> <<1>>, alias |-> 1, up |-> UP1]
-PubU ==
+PubU(zz) ==
   {Over(PubBase(q), F, PubAlt) : q \in 0..2, F \in MaskPolicy(DOMAIN PubAlt)}
   \cup {[PubBase(1) EXCEPT !.id = 65535], [PubBase(2) EXCEPT !.id = 256],
         [PubBase(0) EXCEPT !.mei = -1], [PubBase(0) EXCEPT !.mei = 2147483647], [PubBase(0) EXCEPT !.mei = -2147483647 - 1],
@@ -59,34 +58,34 @@ PubU ==
         [PubBase(0) EXCEPT !.up = UP2], [PubBase(0) EXCEPT !.psize = 0], [PubBase(2) EXCEPT !.psize = 0],
         [PubBase(0) EXCEPT !.cd = <<S0>>], [PubBase(0) EXCEPT !.ct = <<S0>>]}
 \* Remaining Length boundaries: variable header of PubBase(0) is 6 bytes
-PubRL == {[PubBase(0) EXCEPT !.psize = n - 6] : n \in {127, 128, 16383, 16384} \cup (IF Deep THEN {2097151, 2097152} ELSE {})}
+PubRL(zz) == {[PubBase(0) EXCEPT !.psize = n - 6] : n \in {127, 128, 16383, 16384} \cup (IF Deep THEN {2097151, 2097152} ELSE {})}
 
 SubBase == [t |-> "SUBSCRIBE", id |-> 1, sid |-> 0, up |-> << >>, filters |-> << <<Sab, 0, 0, 0, 0>> >>]
-SubU ==
+SubU(zz) ==
   {[SubBase EXCEPT !.id = id, !.sid = sid, !.up = up] : id \in {1, 65535}, sid \in {0, 1, 268435455}, up \in {<< >>, UP1, UP2}}
   \cup {[SubBase EXCEPT !.filters = << <<Sab, q, nl, rap, rh>> >>] : q \in 0..2, nl \in 0..1, rap \in 0..1, rh \in 0..2}
   \cup {[SubBase EXCEPT !.filters = << <<Sab, 1, 1, 0, 1>>, <<Su, 2, 0, 1, 2>>, <<Sa, 0, 0, 0, 0>> >>]}
-UnsubU == {[t |-> "UNSUBSCRIBE", id |-> id, up |-> up, filters |-> fs] :
+UnsubU(zz) == {[t |-> "UNSUBSCRIBE", id |-> id, up |-> up, filters |-> fs] :
              id \in {1, 65535}, up \in {<< >>, UP1, UP2}, fs \in {<<Sab>>, <<Sab, Su, Sa>>}}
-SubAckU ==
+SubAckU(zz) ==
   {[t |-> "SUBACK", id |-> id, rs |-> rs, up |-> up, codes |-> cs] :
      id \in {1, 65535}, rs \in {<< >>, <<Sab>>}, up \in {<< >>, UP2},
      cs \in {<<c>> : c \in W5!RcSubAck} \cup {<<0, 1, 2, 128>>}}
-UnsubAckU ==
+UnsubAckU(zz) ==
   {[t |-> "UNSUBACK", id |-> id, rs |-> rs, up |-> up, codes |-> cs] :
      id \in {1, 65535}, rs \in {<< >>, <<Sab>>}, up \in {<< >>, UP2},
      cs \in {<<c>> : c \in W5!RcUnsubAck} \cup {<<0, 17, 128>>}}
 
 DiscBase == [t |-> "DISCONNECT", rc |-> 0, sei |-> << >>, sr |-> << >>, rs |-> << >>, up |-> << >>]
 DiscAlt == [sei |-> <<7>>, sr |-> <<Sab>>, rs |-> <<Sa>>, up |-> UP1]
-DiscU ==
+DiscU(zz) ==
   {[Over(DiscBase, F, DiscAlt) EXCEPT !.rc = rc] : rc \in {0, 4, 128, 162}, F \in SUBSET DOMAIN DiscAlt}
   \cup {[Over(DiscBase, F, DiscAlt) EXCEPT !.rc = rc] : rc \in W5!RcDisconnect, F \in {{}, DOMAIN DiscAlt}}
   \cup {[DiscBase EXCEPT !.sei = <<0>>], [DiscBase EXCEPT !.sei = <<-1>>], [DiscBase EXCEPT !.up = UP2]}
 
 AuthBase == [t |-> "AUTH", rc |-> 0, am |-> << >>, ad |-> << >>, rs |-> << >>, up |-> << >>]
 AuthAlt == [am |-> <<Sab>>, ad |-> << <<0, 1, 255>> >>, rs |-> <<Sa>>, up |-> UP1]
-AuthU == {[Over(AuthBase, F, AuthAlt) EXCEPT !.rc = rc] : rc \in W5!RcAuth, F \in SUBSET DOMAIN AuthAlt}
+AuthU(zz) == {[Over(AuthBase, F, AuthAlt) EXCEPT !.rc = rc] : rc \in W5!RcAuth, F \in SUBSET DOMAIN AuthAlt}
 
 WillBase == [q |-> 0, retain |-> 0, topic |-> Sab, msg |-> <<1, 2>>, utf8 |-> -1, mei |-> 0, ct |-> << >>, rt |-> << >>,
              cd |-> << >>, delay |-> << >>, up |-> << >>]
@@ -97,7 +96,7 @@ ConnBase == [t |-> "CONNECT", clean |-> 1, ka |-> 0, sei |-> 0, am |-> << >>, ad
              tam |-> 0, up |-> << >>, mps |-> 0, will |-> << >>, cid |-> Sab, user |-> << >>, pass |-> << >>]
 ConnAlt == [clean |-> 0, ka |-> 65535, sei |-> 7, am |-> <<Sab>>, ad |-> << <<0, 255>> >>, rpi |-> 0, rri |-> 1, rm |-> 1,
             tam |-> 1, up |-> UP1, mps |-> 1, will |-> <<WillFull>>, cid |-> S0, user |-> <<Sa>>, pass |-> << <<0>> >>]
-ConnU ==
+ConnU(zz) ==
   {Over(ConnBase, F, ConnAlt) : F \in MaskPolicy(DOMAIN ConnAlt)}
   \cup {[ConnBase EXCEPT !.will = <<Over(WillBase, F, WillAlt)>>] : F \in MaskPolicy(DOMAIN WillAlt)}
   \cup {[ConnBase EXCEPT !.will = <<[WillBase EXCEPT !.q = 1, !.utf8 = 0, !.delay = <<0>>, !.msg = S0]>>],
@@ -110,7 +109,7 @@ CaBase == [t |-> "CONNACK", sp |-> 0, rc |-> 0, sei |-> << >>, acid |-> << >>, s
 CaAlt == [sp |-> 1, sei |-> <<7>>, acid |-> <<Sab>>, ska |-> <<60>>, am |-> <<Sa>>, ad |-> << <<1>> >>, ri |-> <<Sab>>,
           sr |-> <<Sa>>, rs |-> <<Sab>>, rm |-> 1, tam |-> 5, mq |-> 1, ra |-> 0, up |-> UP1, mps |-> <<256>>, wsa |-> 0,
           sia |-> 0, ssa |-> 0]
-CaU ==
+CaU(zz) ==
   {Over(CaBase, F, CaAlt) : F \in MaskPolicy(DOMAIN CaAlt)}
   \cup {[Over(CaBase, F, CaAlt) EXCEPT !.rc = rc] : rc \in W5!RcConnack, F \in {{}, DOMAIN CaAlt \ {"sp"}}}
   \cup {[CaBase EXCEPT !.mq = 0, !.sei = <<0>>, !.ska = <<0>>, !.mps = <<-1>>, !.tam = 65535, !.up = UP2],
@@ -120,7 +119,7 @@ Ping5 == {[t |-> "PINGREQ"], [t |-> "PINGRESP"]}
 
 \* string / binary length boundaries (one field at a time) and user property counts
 Lens == IF Deep THEN {0, 1, 127, 128, 16383, 16384, 65535} ELSE {0, 1, 127, 128, 65535}
-LenU5 ==
+LenU5(zz) ==
   {[PubBase(0) EXCEPT !.topic = L(n)] : n \in Lens \ {0}}
   \cup {[t |-> "PUBACK", id |-> 1, rc |-> 16, rs |-> <<L(n)>>, up |-> << >>] : n \in Lens}
   \cup {[t |-> "PUBACK", id |-> 1, rc |-> 0, rs |-> << >>, up |-> << <<L(n), Sa>>, <<Sa, L(n)>> >>] : n \in Lens}
@@ -130,22 +129,22 @@ LenU5 ==
   \cup {[t |-> "PUBACK", id |-> 1, rc |-> 0, rs |-> << >>, up |-> UPn(n)] : n \in {0, 1, 2, 3, 50} \cup (IF Deep THEN {1000} ELSE {})}
   \cup {[PubBase(0) EXCEPT !.up = UPn(n)] : n \in {3, 50}}
 
-Univ5 == AckU \cup PubU \cup PubRL \cup SubU \cup UnsubU \cup SubAckU \cup UnsubAckU \cup DiscU \cup AuthU \cup ConnU \cup CaU
-         \cup Ping5 \cup LenU5
+Univ5(zz) == AckU(0) \cup PubU(0) \cup PubRL(0) \cup SubU(0) \cup UnsubU(0) \cup SubAckU(0) \cup UnsubAckU(0) \cup DiscU(0) \cup AuthU(0) \cup ConnU(0) \cup CaU(0)
+         \cup Ping5 \cup LenU5(0)
 
 \* ---------------------------------------------------------------- MQTT 3.1.1 universe
 Will3U == {<<[q |-> q, retain |-> r, topic |-> Sab, msg |-> m]>> : q \in 0..2, r \in 0..1, m \in {S0, <<1, 2>>}} \cup {<< >>}
-Conn3U ==
+Conn3U(zz) ==
   {[t |-> "CONNECT", clean |-> c, ka |-> ka, will |-> w, cid |-> cid, user |-> u, pass |-> pw] :
      c \in 0..1, ka \in {0, 65535}, w \in Will3U, cid \in {S0, Sab}, u \in {<< >>, <<Sa>>}, pw \in {<< >>, << <<0>> >>}}
-Conn3 == {p \in Conn3U : (p.pass # << >> => p.user # << >>) /\ (p.cid = S0 => p.clean = 1)}
-Pub3U == {[t |-> "PUBLISH", dup |-> d, retain |-> r, q |-> q, topic |-> tp, id |-> id, psize |-> ps] :
+Conn3(zz) == {p \in Conn3U(0) : (p.pass # << >> => p.user # << >>) /\ (p.cid = S0 => p.clean = 1)}
+Pub3U(zz) == {[t |-> "PUBLISH", dup |-> d, retain |-> r, q |-> q, topic |-> tp, id |-> id, psize |-> ps] :
             d \in 0..1, r \in 0..1, q \in 0..2, tp \in {Sab, Su}, id \in {0, 1, 65535}, ps \in {0, 3}}
-Pub3 == {p \in Pub3U : (p.q = 0) = (p.id = 0)}
-Pub3RL == {[t |-> "PUBLISH", dup |-> 0, retain |-> 0, q |-> 0, topic |-> Sab, id |-> 0, psize |-> n - 5] :
+Pub3(zz) == {p \in Pub3U(0) : (p.q = 0) = (p.id = 0)}
+Pub3RL(zz) == {[t |-> "PUBLISH", dup |-> 0, retain |-> 0, q |-> 0, topic |-> Sab, id |-> 0, psize |-> n - 5] :
              n \in {127, 128, 16383, 16384} \cup (IF Deep THEN {2097151, 2097152} ELSE {})}
-Univ3 ==
-  Conn3 \cup Pub3 \cup Pub3RL
+Univ3(zz) ==
+  Conn3(0) \cup Pub3(0) \cup Pub3RL(0)
   \cup {[t |-> "CONNACK", sp |-> sp, rc |-> rc] : sp \in 0..1, rc \in 0..5}
   \cup {[t |-> t, id |-> id] : t \in {"PUBACK", "PUBREC", "PUBREL", "PUBCOMP", "UNSUBACK"}, id \in {1, 256, 65535}}
   \cup {[t |-> "SUBSCRIBE", id |-> id, filters |-> fs] :
@@ -234,7 +233,7 @@ EmitShort(dummy) ==   \* (a parameter keeps TLC from evaluating this when it pro
   \A n \in 1..N : \A f \in [1..n -> A] : PrintT(<<"VEC", ToJson([b |-> [k \in 1..n |-> f[k]]])>>)
 
 \* -- outbound limits (C09)
-LimPk ==
+LimPk(zz) ==
   LET rss == {<< >>, <<Sab>>, <<L(20)>>}
       ups == {<< >>, UP1, UP2, UPn(5)} IN
   {[t |-> t, id |-> 1, rc |-> rc, rs |-> rs, up |-> up] : t \in {"PUBACK", "PUBREL"}, rc \in {0, 146} \cup {16}, rs \in rss, up \in ups}
@@ -244,8 +243,16 @@ LimPk ==
   \cup {[CaBase EXCEPT !.rs = rs, !.up = up, !.acid = ac] : rs \in rss, up \in ups, ac \in {<< >>, <<Sab>>}}
   \cup {PubBase(0), [PubBase(1) EXCEPT !.up = UP2, !.psize = 40], SubBase, [t |-> "PINGREQ"],
         [t |-> "UNSUBSCRIBE", id |-> 9, up |-> UP1, filters |-> <<Sab>>]}
+LimPkDeep(zz) ==
+  {[t |-> t, id |-> 65535, rc |-> rc, rs |-> rs, up |-> up] : t \in AckKinds, rc \in {0, 16, 146, 128},
+     rs \in {<<S0>>, <<L(100)>>, <<L(200)>>}, up \in {UPn(1), UPn(3), UPn(12), << <<L(60), L(60)>>, <<Sa, Sa>> >>}}
+  \cup {[Over(CaBase, F, CaAlt) EXCEPT !.rs = rs, !.up = up] : F \in {{}, {"acid", "sr", "ri"}, DOMAIN CaAlt \ {"rs", "up"}},
+          rs \in {<< >>, <<L(100)>>}, up \in {<< >>, UPn(3), UPn(12)}}
+  \cup {[DiscBase EXCEPT !.rc = 151, !.sei = <<5>>, !.rs = rs, !.up = up] : rs \in {<<L(100)>>, <<L(200)>>}, up \in {<< >>, UPn(12)}}
+  \cup {[t |-> t, id |-> 7, rs |-> rs, up |-> up, codes |-> cs] : t \in {"SUBACK", "UNSUBACK"}, rs \in {<< >>, <<L(100)>>},
+          up \in {<< >>, UPn(12)}, cs \in {<<0>>, [k \in 1..40 |-> 0]}}
 LimOk(p) == p.t \notin {"PUBACK", "PUBREL"} \/ (p.rc \in AckRc(p.t))
-Limits == IF Deep THEN (1..80) \cup {100, 127, 128, 129, 200, 16383, 16384, 16390, 2097152, 268435455, 268435460}
+Limits == IF Deep THEN (1..260) \cup {16383, 16384, 16390, 2097152, 268435455, 268435460}
           ELSE (1..64) \cup {100, 128, 268435460}
 
 \* -- streams with cut sets (C10)
@@ -255,7 +262,7 @@ Sizes == IF Deep THEN {0, 1, 3, 5, 1023, 1024, 1025, 32767, 32768, 32769, 70000,
          ELSE {0, 1, 5, 1024, 1025, 32769, 70000}
 Seg(ver, p) == [b |-> IF ver = 5 THEN W5!Enc(p) ELSE W3!Enc(p), pay |-> Pay(p)]
 Pub3S(q, n) == [t |-> "PUBLISH", dup |-> 0, retain |-> 0, q |-> q, topic |-> Sab, id |-> IF q = 0 THEN 0 ELSE 1, psize |-> n]
-Streams ==
+Streams(zz) ==
   {[ver |-> 5, segs |-> <<Seg(5, PubS(q, n)), Seg(5, [t |-> "PINGREQ"])>>] : q \in {0, 1}, n \in Sizes}
   \cup {[ver |-> 5, segs |-> <<Seg(5, PubS(0, n)), Seg(5, PubS(2, m)), Seg(5, [t |-> "PUBACK", id |-> 1, rc |-> 0, rs |-> << >>, up |-> << >>])>>] :
           n \in Sizes, m \in {0, 5, 1025}}
@@ -263,7 +270,7 @@ Streams ==
   \cup {[ver |-> 3, segs |-> <<Seg(3, Pub3S(q, n)), Seg(3, [t |-> "PINGREQ"])>>] : q \in {0, 1}, n \in Sizes}
   \cup {[ver |-> 3, segs |-> <<Seg(3, Pub3S(0, n)), Seg(3, Pub3S(2, m)), Seg(3, [t |-> "PUBACK", id |-> 1])>>] : n \in Sizes, m \in {0, 5, 1025}}
 \* short streams for exhaustive fragmentation
-ShortStreams ==
+ShortStreams(zz) ==
   {[ver |-> 5, segs |-> <<Seg(5, [PubBase(0) EXCEPT !.topic = Sa, !.psize = n]), Seg(5, [t |-> "PINGREQ"])>>] : n \in {0, 1, 4}}
   \cup {[ver |-> 5, segs |-> <<Seg(5, [t |-> "PUBACK", id |-> 1, rc |-> 16, rs |-> << >>, up |-> << >>]),
                               Seg(5, [PubBase(1) EXCEPT !.topic = Sa, !.psize = 3])>>]}
@@ -282,25 +289,25 @@ Marks(segs, off) ==
 
 \* -- connection level: a PUBLISH whose payload is written in pieces, read by a handler at some pace
 ConnSizes == IF Deep THEN {0, 1, 5, 1023, 1024, 1025, 32767, 32768, 32769, 70000, 307200} ELSE {0, 5, 1025, 32769, 70000}
-ConnRuns ==
+ConnRuns(zz) ==
   {[ver |-> ver, q |-> q, size |-> n, send |-> sd, piece |-> pc, read |-> rd, pace |-> pa, minc |-> mc, buf |-> bf] :
      ver \in {3, 5}, q \in {0, 1}, n \in ConnSizes, sd \in {0, 1, 100000}, pc \in {7, 1000, 16384, 400000},
      rd \in {"all", "chunks"}, pa \in {"eager", "lazy", "abandon"}, mc \in {0, 4, 1024, 32768}, bf \in {1024, 32768}}
 
 Emit(dummy) ==
-  CASE Part = "pk5" -> \A p \in Univ5 : EmitPk(5, p)
-    [] Part = "pk3" -> \A p \in Univ3 : EmitPk(3, p)
+  CASE Part = "pk5" -> \A p \in Univ5(0) : EmitPk(5, p)
+    [] Part = "pk3" -> \A p \in Univ3(0) : EmitPk(3, p)
     [] Part = "mut5" -> EmitMut(5)
     [] Part = "mut3" -> EmitMut(3)
     [] Part = "short" -> EmitShort(0)
-    [] Part = "lim" -> \A p \in {x \in LimPk : LimOk(x)} :
+    [] Part = "lim" -> \A p \in {x \in LimPk(0) \cup (IF Deep THEN LimPkDeep(0) ELSE {}) : LimOk(x)} :
                          PrintT(<<"VEC", ToJson([ver |-> 5, p |-> p, pay |-> Pay(p), lims |-> SortSet(Limits)])>>)
-    [] Part = "stream" -> \A s \in Streams :
+    [] Part = "stream" -> \A s \in Streams(0) :
                             PrintT(<<"VEC", ToJson([ver |-> s.ver, segs |-> s.segs,
                                                     marks |-> SortSet({m \in Marks(s.segs, 0) : m > 0 /\ m < TotalLen(s.segs)})])>>)
-    [] Part = "frag" -> \A s \in ShortStreams : \A C \in SUBSET (1..(TotalLen(s.segs) - 1)) :
+    [] Part = "frag" -> \A s \in ShortStreams(0) : \A C \in SUBSET (1..(TotalLen(s.segs) - 1)) :
                             PrintT(<<"VEC", ToJson([ver |-> s.ver, segs |-> s.segs, cuts |-> SortSet(C)])>>)
-    [] Part = "conn" -> \A r \in {x \in ConnRuns : x.size > 0 \/ (x.send = 0 /\ x.piece = 7)} :
+    [] Part = "conn" -> \A r \in {x \in ConnRuns(0) : x.size > 0 \/ (x.send = 0 /\ x.piece = 7)} :
                           (r.size \div r.piece <= 300) => PrintT(<<"VEC", ToJson(r)>>)
     [] OTHER -> FALSE
 
